@@ -7,7 +7,7 @@
     statements hold for every state / every history of accepted
     configurations ([cfg_ok]: something to listen on, at least one
     connection, distinct ids, every connection has a source). *)
-From LMD Require Import Base.Str C20.Model C20.Proofs.
+From LMD Require Import Base.Str C20.Model C20.Proofs C20.Proofs2 C20.Run2.
 Local Open Scope N_scope.
 
 (** The transcription of the Go loops (with the in-place mutation of the old
@@ -167,3 +167,70 @@ Print Assumptions C20_noop_after_reload.
 Print Assumptions C20_final_matches_last.
 Print Assumptions C20_valid_history_alive.
 Print Assumptions C20_invalid_config_exits.
+
+(** ---- extension: every attribute counts, lists in file order ---- *)
+
+(** A configured connection whose id is running is the SAME peer object exactly
+    if the running definition equals the configured one as the configuration
+    file spells it ([conn] equality: every attribute, source / fallback / flags
+    entry by entry in file order); then the cache is kept, otherwise the object
+    is new, its cache empty and the old object stopped. *)
+Theorem C20_recreated_iff_differs :
+  forall h cfg c p, hist_ok h -> cfg_ok cfg -> In c (g_conns cfg) ->
+  let st := run init_state h in
+  lookup (c_id c) (d_map st) = Some p ->
+  exists p', lookup (c_id c) (d_map (reload st cfg)) = Some p' /\ p_def p' = c /\
+             p_running p' = true /\
+             (p_obj p' = p_obj p <-> p_def p = c) /\
+             (p_def p = c -> p_cache p' = p_cache p) /\
+             (p_def p <> c -> p_cache p' = 0 /\ In (p_obj p) (d_stopped (reload st cfg))).
+Proof. exact recreated_iff_differs. Qed.
+
+(** In particular a reload whose only edit is a list attribute - entries
+    permuted, added, dropped - recreates the peer; the new object's primary
+    address is the first entry of the new source list. *)
+Theorem C20_list_edit_recreates :
+  forall h cfg c p, hist_ok h -> cfg_ok cfg -> In c (g_conns cfg) ->
+  let st := run init_state h in
+  lookup (c_id c) (d_map st) = Some p ->
+  c_source c <> c_source (p_def p) \/ c_fallback c <> c_fallback (p_def p) \/ c_flags c <> c_flags (p_def p) ->
+  exists p', lookup (c_id c) (d_map (reload st cfg)) = Some p' /\
+             p_obj p' <> p_obj p /\ p_cache p' = 0 /\ p_running p' = true /\
+             c_source (p_def p') = c_source c /\ c_fallback (p_def p') = c_fallback c /\
+             c_flags (p_def p') = c_flags c /\
+             hd [] (c_source (p_def p')) = hd [] (c_source c) /\
+             In (p_obj p) (d_stopped (reload st cfg)).
+Proof. exact list_edit_recreates. Qed.
+
+(** An untouched backend is the same object with the same cache in the state
+    before and in the state after the reload: the two states a client can be
+    served from while the reload runs (streams serve and busy, Run2.resp_ok /
+    Run4.tresp_ok demand that it is listed, Run4 within the time limit). *)
+Theorem C20_unchanged_in_both_states :
+  forall st cfg c p, d_dead st = false -> cfg_ok cfg -> In c (g_conns cfg) ->
+  lookup (c_id c) (d_map st) = Some p -> p_def p = c ->
+  forallb (same_object (c_id c) p) [st; reload st cfg] = true /\
+  exists p', lookup (c_id c) (d_map (reload st cfg)) = Some p' /\ p_cache p' = p_cache p /\ p_def p' = p_def p.
+Proof. exact unchanged_in_both_states. Qed.
+
+(** non-vacuity: b has two sources; a reload that only swaps them gives a new
+    object (4) whose primary address is s3, a stays object 2 with its cache;
+    swapping two flags does the same to a. *)
+Example C20_example_lists :
+  let a := mkConn (s "a") (s "A") [s "s1"] [] [] [s "x"; s "y"] [] in
+  let a' := mkConn (s "a") (s "A") [s "s1"] [] [] [s "y"; s "x"] [] in
+  let b := mkConn (s "b") (s "B") [s "s2"; s "s3"] [] [] [] [] in
+  let b' := mkConn (s "b") (s "B") [s "s3"; s "s2"] [] [] [] [] in
+  let st1 := run init_state [Reload (mkConfig [s "L1"] [a; b]); Sync (s "a") 7; Sync (s "b") 8] in
+  let st2 := reload st1 (mkConfig [s "L1"] [a; b']) in
+  let st3 := reload st2 (mkConfig [s "L1"] [a'; b']) in
+  map (fun kv => (p_obj (snd kv), p_cache (snd kv), hd [] (c_source (p_def (snd kv))))) (d_map st2)
+    = [(2, 7, s "s1"); (4, 0, s "s3")] /\
+  d_stopped st2 = [3] /\
+  map (fun kv => (p_obj (snd kv), p_cache (snd kv))) (d_map st3) = [(5, 0); (4, 0)] /\
+  d_stopped st3 = [3; 2].
+Proof. vm_compute. repeat split. Qed.
+
+Print Assumptions C20_recreated_iff_differs.
+Print Assumptions C20_list_edit_recreates.
+Print Assumptions C20_unchanged_in_both_states.
